@@ -590,6 +590,89 @@ theorem resume_checks_total (r : Resume) : (resumeChecks r).noEscape = true := b
   unfold resumeChecks
   repeat' (first | rfl | split)
 
+/-- Early data: however many undecryptable records of whatever sizes a peer sends after a
+    ClientHello with early_data, the server skips strictly less than `max_early_data` bytes in
+    total (counting what was skipped before) and then fails (bad_record_mac) at the first record
+    that would reach the limit; skipping never goes on past the budget. -/
+theorem early_data_bounded (maxEarly : Nat) : ∀ (sizes : List Nat) (processed : Nat),
+    processed + earlySkipped maxEarly processed sizes < maxEarly ∨
+      (earlySkip maxEarly processed sizes).1 = 0 := by
+  intro sizes
+  induction sizes with
+  | nil => intro p; right; rfl
+  | cons n rest ih =>
+    intro p
+    unfold earlySkipped earlySkip
+    by_cases h : p + n < maxEarly
+    · simp only [h, if_true]
+      left
+      have := ih (p + n)
+      simp only [List.take_succ_cons, List.foldl_cons, Nat.zero_add]
+      unfold earlySkipped at this
+      rcases this with h1 | h1
+      · have e : ∀ (l : List Nat) (a : Nat), l.foldl (· + ·) a = a + l.foldl (· + ·) 0 := by
+          intro l
+          induction l with
+          | nil => intro a; simp
+          | cons x xs ihx => intro a; simp only [List.foldl_cons]; rw [ihx (a + x), ihx (0 + x)]; omega
+        rw [e _ n]; omega
+      · rw [h1]; simpa using h
+    · simp only [h, if_false]; right; trivial
+
+/-- ... and a flight that exceeds the budget does end with the failure -/
+theorem early_data_fails_when_exceeded (maxEarly n : Nat) (processed : Nat) (rest : List Nat)
+    (h : maxEarly ≤ processed + n) : earlySkip maxEarly processed (n :: rest) = (0, true) := by
+  unfold earlySkip
+  have : ¬ (processed + n < maxEarly) := by omega
+  simp [this]
+
+example : earlySkip 4000 0 (List.replicate 48 500) = (7, true) := by decide
+
+/-- History level: after any connection that used the cached session `i` (full or resumed) ended
+    with `_shutdown(False)`, no later connection offering `i` is resumed, whatever happens in
+    between. -/
+theorem failed_session_never_resumes (c : Cache) (i : Nat) (before after : List Bool) :
+    (c.afterHistory i (before ++ false :: after)).resumes i = false := by
+  have hkeep : ∀ (h : List Bool) (c : Cache), c.resumes i = false → (c.afterHistory i h).resumes i = false := by
+    intro h
+    induction h with
+    | nil => intro c hc; exact hc
+    | cons r rest ih =>
+      intro c hc
+      apply ih
+      unfold Cache.shutdown
+      cases r with
+      | true => simpa using hc
+      | false =>
+        simp only [Bool.false_eq_true, if_false]
+        unfold Cache.resumes at hc ⊢
+        induction c with
+        | nil => rfl
+        | cons e tl iht =>
+          simp only [List.map_cons, List.find?_cons] at hc ⊢
+          by_cases he : (e.1 == i) = true
+          · simp [he]
+          · simp only [he, Bool.false_eq_true, if_false] at hc ⊢
+            exact iht hc
+  have hfail : ∀ c : Cache, (c.shutdown i false).resumes i = false := by
+    intro c
+    unfold Cache.shutdown Cache.resumes
+    simp only [Bool.false_eq_true, if_false]
+    induction c with
+    | nil => rfl
+    | cons e tl iht =>
+      simp only [List.map_cons, List.find?_cons]
+      by_cases he : (e.1 == i) = true
+      · simp [he]
+      · simp only [he, Bool.false_eq_true, if_false]
+        exact iht
+  induction before generalizing c with
+  | nil => exact hkeep after _ (hfail c)
+  | cons r rest ih => exact ih (c.shutdown i r)
+
+example : (Cache.afterHistory [(7, true)] 7 [true, true]).resumes 7 = true := by decide
+example : (Cache.afterHistory [(7, true)] 7 [true, false, true]).resumes 7 = false := by decide
+
 /-- non-vacuity: honest flights pass, a few broken ones get the alert the code sends -/
 example : server13 ⟨true, false⟩ [{ htype := 11 }, { htype := 15 }, { ctype := 20, ccs := [1] }, { htype := 20 }] = .pass := rfl
 example : server13 ⟨true, false⟩ [{ htype := 11, b1 := false }, { htype := 20, b1 := false }]
